@@ -1,1 +1,145 @@
-/-! Property theorems for C08 (not built yet). -/
+import Cellml.C08.Lemmas
+
+/-! # C08 — any sequence of edits leaves a coherent model; rejected edits change nothing
+
+    Model: `Cellml/Model/State.lean` (`MState`, `step`, `run`), `Cellml/Model/Graph.lean` (`buildGraph`),
+    `Cellml/Model/Inv.lean` (`Inv`, `content`, `fresh`, `obs`). The model is the code of cellmlmanip/model.py after the
+    three `fix:` commits recorded in findings/C08.json; the behaviour before them is kept as `addEquationToday` /
+    `addVariableToday` with proved counterexamples.
+
+    Every theorem quantifies over ALL histories of API calls of any length — valid edits, edits that raise, and the
+    cache-populating queries at any position — or over all states satisfying the invariant and all calls. The tie to
+    the Python code is the correspondence check `harness/props/c08.py`. -/
+
+deriving instance DecidableEq for Except
+
+namespace Cellml.Props.C08
+open Model
+
+/-- the invariant holds for a new model … -/
+theorem inv_init (mc : Option String) : Inv (init mc) := Model.inv_init mc
+
+/-- … is preserved by every API call, whether it returns or raises … -/
+theorem inv_step (s : MState) (op : Op) (h : Inv s) : Inv (step s op).1 := Model.inv_step h op
+
+/-- … hence holds after every history: the definition maps are exactly what the equation list says, a cached graph is
+    the graph of the current equations, the name and cmeta registries match the variable list, `order_added` increases
+    in the order of introduction. -/
+theorem inv_reachable (mc : Option String) (ops : List Op) : Inv (run mc ops) := by
+  unfold run
+  suffices ∀ (s : MState), Inv s → Inv (ops.foldl (fun s op => (step s op).1) s) from this _ (inv_init mc)
+  induction ops with
+  | nil => intro s h; exact h
+  | cons op ops ih => intro s h; exact ih _ (inv_step s op h)
+
+/-- **coherent**: after any history every query — the equation list, the definition of each variable, the state
+    variables and their order, the free variable, the cmeta lookups, both graphs, the roles left on the variables —
+    answers as on a freshly built model holding the same variables and equations. -/
+theorem coherent (mc : Option String) (ops : List Op) :
+    obs (run mc ops) = obs (fresh (content (run mc ops))) :=
+  obs_fresh (inv_reachable mc ops)
+
+/-- the same, for any state satisfying the invariant -/
+theorem coherent_of_inv (s : MState) (h : Inv s) : obs s = obs (fresh (content s)) := obs_fresh h
+
+/-- `fresh` is not an ad-hoc construction: it is the model that `add_equation`, called for each equation of the content
+    in turn on a model holding the same variables, builds -/
+theorem fresh_is_built (mc : Option String) (ops : List Op) :
+    (run mc ops).equations.foldl (fun st e => (step st (.addEquation e)).1)
+        (fresh { content (run mc ops) with equations := [] }) = fresh (content (run mc ops)) :=
+  Model.fresh_is_built (inv_reachable mc ops)
+
+/-- two histories that arrive at the same variables and equations answer every query alike -/
+theorem history_independent (mc₁ mc₂ : Option String) (ops₁ ops₂ : List Op)
+    (h : content (run mc₁ ops₁) = content (run mc₂ ops₂)) : obs (run mc₁ ops₁) = obs (run mc₂ ops₂) := by
+  rw [coherent mc₁ ops₁, coherent mc₂ ops₂, h]
+
+/-- **atomic**: a call that raises (duplicate name, cmeta id in use, duplicate definition, invalid left-hand side,
+    higher-order derivative, unknown equation, transfer without / onto a cmeta id, a graph that cannot be built, no free
+    variable) leaves every observable of the model as it was before the call. -/
+theorem atomic (s s' : MState) (op : Op) (e : Err) (h : Inv s) (hs : step s op = (s', .raised e)) :
+    obs s' = obs s := by
+  rcases raised_state h op e hs with rfl | ⟨_, hg, hn, rfl⟩
+  · rfl
+  · exact obs_failed_build hg hn
+
+/-- atomicity at every point of every history -/
+theorem atomic_reachable (mc : Option String) (ops : List Op) (op : Op) (s' : MState) (e : Err)
+    (hs : step (run mc ops) op = (s', .raised e)) : obs s' = obs (run mc ops) :=
+  atomic _ s' op e (inv_reachable mc ops) hs
+
+/-- a rejected *edit* leaves the whole state untouched, not only what can be observed (a graph query that raises has
+    rewritten `type` fields, which the next successful query rewrites again) -/
+theorem rejected_edit_state (s s' : MState) (op : Op) (e : Err) (h : Inv s) (hs : step s op = (s', .raised e))
+    (hedit : op ≠ .qGraph ∧ op ≠ .qGraphNum) : s' = s := by
+  rcases raised_state h op e hs with h1 | ⟨hq | hq, _⟩
+  · exact h1
+  · exact absurd hq hedit.1
+  · exact absurd hq hedit.2
+
+/-- `get_state_variables()` returns the state variables in the order in which they were introduced (the order of
+    `variables()`), whatever was added and removed in between; `order_added` is never shared -/
+theorem states_in_order_of_introduction (mc : Option String) (ops : List Op)
+    (hlive : ∀ k ∈ stateKeys (run mc ops), k ∈ (run mc ops).live) :
+    getStateVariables (run mc ops) = (run mc ops).live.filter (fun i => hasKey i (run mc ops).odeDef) :=
+  states_in_variables_order (inv_reachable mc ops) hlive
+
+theorem order_added_increasing (mc : Option String) (ops : List Op) :
+    ((run mc ops).live.map (orderOf (run mc ops))).Pairwise (· < ·) :=
+  (inv_reachable mc ops).reg.orderInc
+
+-- ------------------------------------------------------------------------------------------------ non-vacuity
+/-- x, t, a; `dx/dt = a`; `a = 1`; the graph is read; then three rejected edits and a removal -/
+def demoOps : List Op :=
+  [.addVariable "x" none (some 2), .addVariable "t" (some "time") none, .addVariable "a" none none,
+   .addEquation ⟨0, .deriv 0 1 1, [.var 2], [.var 2], false⟩,
+   .addEquation ⟨1, .var 2, [], [], true⟩,
+   .qGraph]
+
+def demo : MState := run (some "model") demoOps
+
+example : (step demo (.addEquation ⟨2, .var 0, [], [], true⟩)).2 = .raised .valueError := by decide +kernel
+example : (step demo (.addEquation ⟨3, .other, [], [], false⟩)).2 = .raised .valueError := by decide +kernel
+example : (step demo (.addEquation ⟨4, .deriv 0 1 2, [], [], false⟩)).2 = .raised .valueError := by decide +kernel
+example : (step demo (.removeEquation ⟨5, .var 2, [], [], true⟩)).2 = .raised .keyError := by decide +kernel
+example : (step demo (.addVariable "x" none none)).2 = .raised .valueError := by decide +kernel
+example : (step demo (.addVariable "y" (some "model") none)).2 = .raised .valueError := by decide +kernel
+example : (step demo (.transferCmetaId 0 1)).2 = .raised .valueError := by decide +kernel
+example : getStateVariables demo = [0] ∧ getFreeVariable demo = some 1 ∧ demo.graph.isSome = true := by decide +kernel
+/-- the graph has the ODE node, the parameter, and the state and free variables with their roles -/
+example : (obs demo).graph = .ok ⟨[⟨.deriv 0 1, some ⟨0, .deriv 0 1 1, [.var 2], [.var 2], false⟩, none⟩,
+      ⟨.var 2, some ⟨1, .var 2, [], [], true⟩, some .parameter⟩, ⟨.var 1, none, some .free⟩, ⟨.var 0, none, some .state⟩],
+    [(.var 2, .deriv 0 1)]⟩ := by decide +kernel
+/-- removing the ODE and then using the former state variable on a right-hand side: the graph is refused, as on a
+    fresh model (before the fix the stale role STATE let it through) -/
+example : (obs (run (some "model") (demoOps ++ [.removeEquation ⟨0, .deriv 0 1 1, [.var 2], [.var 2], false⟩,
+      .addVariable "b" none none, .addEquation ⟨6, .var 3, [.var 0], [.var 0], false⟩]))).graph =
+    .error (.badRef true false) := by decide +kernel
+
+-- ------------------------------------------------------------------------------------------------ before the fixes
+/-- `add_equation` as it was (append, then validate): a rejected equation stays in `equations` -/
+theorem today_not_atomic :
+    (addEquationToday demo ⟨2, .var 0, [], [], true⟩ true).2 = .raised .valueError ∧
+    (addEquationToday demo ⟨2, .var 0, [], [], true⟩ true).1.equations ≠ demo.equations ∧
+    (addEquationToday demo ⟨3, .other, [], [], false⟩ true).2 = .raised .valueError ∧
+    (addEquationToday demo ⟨3, .other, [], [], false⟩ true).1.equations ≠ demo.equations := by decide +kernel
+
+/-- … and the model is then no longer coherent: the list holds two definitions of `x` -/
+theorem today_not_coherent :
+    ¬ ((addEquationToday demo ⟨2, .var 0, [], [], true⟩ true).1.equations.filterMap defKey).Nodup := by
+  decide +kernel
+
+/-- `add_variable` as it was (`order_added = len(_name_to_variable)`): after t, a, x, remove a, add y, the live
+    variables x and y share `order_added`; with `dy/dt` added before `dx/dt` the states come out as y, x although x was
+    introduced first -/
+theorem today_order_reused :
+    let s0 := (addVariableToday (init none) "t" none none).1
+    let s1 := (addVariableToday s0 "a" none none).1
+    let s2 := (addVariableToday s1 "x" none none).1
+    let s3 := (removeVariable s2 1).1
+    let s4 := (addVariableToday s3 "y" none none).1
+    let s5 := (step s4 (.addEquation ⟨0, .deriv 3 0 1, [], [], false⟩)).1
+    let s6 := (step s5 (.addEquation ⟨1, .deriv 2 0 1, [], [], false⟩)).1
+    orderOf s6 2 = orderOf s6 3 ∧ s6.live = [0, 2, 3] ∧ getStateVariables s6 = [3, 2] := by decide +kernel
+
+end Cellml.Props.C08
